@@ -7,6 +7,7 @@ import Driver.Ops.Fix
 import Driver.Ops.Denote
 import Driver.Ops.Des
 import Driver.Ops.Finish
+import Driver.Ops.Mfe
 import Driver.Ops.Ssm
 import Driver.Ops.Subst
 /-! Registry of operation handlers: each model area adds one import above and one entry below. -/
@@ -22,6 +23,7 @@ def handlers : List (String → Json → Option Json) := [
   DenoteOps.handle?,
   DesOps.handle?,
   FinishOps.handle?,
+  MfeOps.handle?,
   Ssm.handle?,
   Subst.handle?
 ]
